@@ -15,6 +15,7 @@ import (
 	"math/rand"
 	"os"
 	"sort"
+	"strings"
 	"time"
 
 	g "github.com/zenon-network/go-zenon/chain/genesis/mock"
@@ -23,6 +24,7 @@ import (
 	"github.com/zenon-network/go-zenon/common/db"
 	"github.com/zenon-network/go-zenon/common/types"
 	"github.com/zenon-network/go-zenon/consensus"
+	"github.com/zenon-network/go-zenon/vm/constants"
 	"github.com/zenon-network/go-zenon/vm/embedded/definition"
 
 	"verif/harness/fw"
@@ -71,7 +73,101 @@ func c01Cases(tier string, seed int64) []string {
 	for i := 0; i < nw; i++ {
 		l = append(l, fmt.Sprintf("genesis:world:%d", i))
 	}
+	// the call generator of C09 (every method of every embedded contract, all spork regimes, hostile encodings,
+	// contract-to-contract calls of bridge and liquidity) under this check's ledger monitor
+	nc, nm := 1, 2
+	if tier == "thorough" {
+		nc, nm = 24, 40
+	}
+	for i := 0; i < nc; i++ {
+		for _, rg := range c09Regimes {
+			l = append(l, fmt.Sprintf("calls:%s:%d", rg, i))
+		}
+	}
+	for i := 0; i < nm; i++ {
+		l = append(l, fmt.Sprintf("calls-misowned:%s:%d", []string{"all", "bridge"}[i%2], i))
+	}
 	return l
+}
+
+// c01RunCalls runs C09's environment (muted: its own verdicts belong to C09) and scans the ledger after every
+// contract receive and every momentum.
+func c01RunCalls(c *fw.C, caseID string) {
+	parts := strings.Split(caseID, ":")
+	if len(parts) != 3 {
+		c.Inconclusive("bad case id")
+		return
+	}
+	restore := c01SaveGlobals()
+	defer restore()
+	c09ResetGlobals()
+	e := &c09Env{
+		c: c.Muted(), caseID: caseID, regime: parts[1], rng: c.Rand("C01/" + caseID),
+		sporkIDs: map[string]types.Hash{},
+		sends:    map[types.Hash]*c09Send{},
+		pending:  map[types.Address]map[types.Hash]*c09Send{},
+		retErr:   map[types.Hash]string{},
+	}
+	e.misownedAlways = parts[0] == "calls-misowned"
+	e.st.init()
+	e.open()
+	defer e.close()
+	mon := &c01Monitor{c: c, n: e.P, seenBlocks: map[types.Hash]bool{}}
+	mon.check("genesis", nil)
+	oldM, oldB := e.P.OnMomentum, e.P.OnBlock
+	e.P.OnMomentum = func(m *nom.Momentum, err error) {
+		oldM(m, err)
+		if err == nil {
+			mon.check("momentum", nil)
+		}
+	}
+	e.P.OnBlock = func(b *nom.AccountBlock, ch db.Patch, err error) {
+		oldB(b, ch, err)
+		if err == nil && types.IsEmbeddedAddress(b.Address) {
+			status := "ok"
+			if len(b.Data) == 8 && b.Data[7] == 2 {
+				status = "failed-call"
+			}
+			name := "?"
+			if ct := c09ContractByAddr(b.Address); ct != nil {
+				name = ct.name
+			}
+			if len(b.DescendantBlocks) > 0 && types.IsEmbeddedAddress(b.DescendantBlocks[0].ToAddress) {
+				c.Count("contract_to_contract_sends", 1)
+				status += " contract-to-contract"
+			}
+			mon.check(fmt.Sprintf("calls: %s receive %s descendants=%d", name, status, c02min(len(b.DescendantBlocks), 2)), nil)
+		}
+	}
+	e.run()
+	c.Count("ledger_scans", mon.scans)
+	c.Count("calls_cases_momentums", int(e.P.Height()))
+	c.SetAdd("calls_regimes", parts[0]+":"+parts[1])
+}
+
+// c01SaveGlobals captures the process globals C09's environment changes.
+func c01SaveGlobals() func() {
+	a, h, b := types.AcceleratorSpork.SporkId, types.HtlcSpork.SporkId, types.BridgeAndLiquiditySpork.SporkId
+	im := types.ImplementedSporksMap
+	ed := consensus.EpochDuration
+	umn := constants.UpdateMinNumMomentums
+	v := []int64{0, constants.RewardTimeLimit, constants.StakeTimeUnitSec, constants.StakeTimeMinSec, constants.StakeTimeMaxSec,
+		constants.SentinelLockTimeWindow, constants.SentinelRevokeTimeWindow, constants.PillarEpochLockTime, constants.PillarEpochRevokeTime}
+	fe := constants.FuseExpiration
+	mg, mad, msd, mud := constants.MinGuardians, constants.MinAdministratorDelay, constants.MinSoftDelay, constants.MinUnhaltDurationInMomentums
+	adm := constants.InitialBridgeAdministrator
+	return func() {
+		types.AcceleratorSpork.SporkId, types.HtlcSpork.SporkId, types.BridgeAndLiquiditySpork.SporkId = a, h, b
+		types.ImplementedSporksMap = im
+		consensus.EpochDuration = ed
+		constants.UpdateMinNumMomentums = umn
+		constants.RewardTimeLimit, constants.StakeTimeUnitSec, constants.StakeTimeMinSec, constants.StakeTimeMaxSec = v[1], v[2], v[3], v[4]
+		constants.SentinelLockTimeWindow, constants.SentinelRevokeTimeWindow, constants.PillarEpochLockTime, constants.PillarEpochRevokeTime = v[5], v[6], v[7], v[8]
+		constants.FuseExpiration = fe
+		constants.MinGuardians, constants.MinAdministratorDelay, constants.MinSoftDelay, constants.MinUnhaltDurationInMomentums = mg, mad, msd, mud
+		constants.InitialBridgeAdministrator = adm
+		simnet.Setup()
+	}
 }
 
 // PoolLedger scans the confirmed ledger of a node and overlays the unconfirmed chain of every account that has one.
@@ -321,6 +417,10 @@ func c01TokenClass(z types.ZenonTokenStandard) string {
 }
 
 func c01Run(c *fw.C, caseID string) {
+	if strings.HasPrefix(caseID, "calls") {
+		c01RunCalls(c, caseID)
+		return
+	}
 	r := c.Rand(caseID)
 	base := c.ScratchDir("c01")
 	defer os.RemoveAll(base)
